@@ -176,9 +176,9 @@ func (g *c20Gater) ok(p peer.ID) bool {
 	}
 	return true
 }
-func (g *c20Gater) InterceptPeerDial(p peer.ID) bool                  { return g.ok(p) }
-func (g *c20Gater) InterceptAddrDial(p peer.ID, _ ma.Multiaddr) bool  { return g.ok(p) }
-func (g *c20Gater) InterceptAccept(network.ConnMultiaddrs) bool       { return true }
+func (g *c20Gater) InterceptPeerDial(p peer.ID) bool                 { return g.ok(p) }
+func (g *c20Gater) InterceptAddrDial(p peer.ID, _ ma.Multiaddr) bool { return g.ok(p) }
+func (g *c20Gater) InterceptAccept(network.ConnMultiaddrs) bool      { return true }
 func (g *c20Gater) InterceptSecured(_ network.Direction, p peer.ID, _ network.ConnMultiaddrs) bool {
 	return g.ok(p)
 }
@@ -272,9 +272,9 @@ func (t *c20Tracer) DuplicateMessage(msg *pubsub.Message) {
 	t.fate(msg).Duplicate++
 	t.mu.Unlock()
 }
-func (t *c20Tracer) ThrottlePeer(peer.ID)             {}
-func (t *c20Tracer) RecvRPC(*pubsub.RPC)              {}
-func (t *c20Tracer) SendRPC(*pubsub.RPC, peer.ID)     {}
+func (t *c20Tracer) ThrottlePeer(peer.ID)                 {}
+func (t *c20Tracer) RecvRPC(*pubsub.RPC)                  {}
+func (t *c20Tracer) SendRPC(*pubsub.RPC, peer.ID)         {}
 func (t *c20Tracer) UndeliverableMessage(*pubsub.Message) {}
 func (t *c20Tracer) DropRPC(rpc *pubsub.RPC, _ peer.ID) {
 	if len(rpc.GetPublish()) > 0 {
@@ -461,7 +461,7 @@ type c20Totals struct {
 	publishedBad, relayedBad    atomic.Int64
 	publishedByKind             sync.Map // kind -> *atomic.Int64
 
-	relayedNoRecord struct{ staticNoHandler, staticHandler, dynNoHook, dynHook atomic.Int64 }
+	relayedNoRecord    struct{ staticNoHandler, staticHandler, dynNoHook, dynHook atomic.Int64 }
 	bDeliveredNoRecord struct{ dynNoHook, dynHook, static atomic.Int64 }
 	publishedDyn       struct{ noHook, hook atomic.Int64 }
 
@@ -1196,6 +1196,17 @@ func c20RunTopology(r *verifkit.Run, ctx context.Context, idx, perDyn, staticMul
 		}
 		where := fmt.Sprintf("%s payload %q (phase %s)", m.Kind, m.Tag, m.Phase)
 		switch {
+		case m.PhaseClass == "static-nohandler":
+			// Whoever answered, B had no handler installed from before the message was
+			// published until after B's pubsub was done with it: it must not be relayed.
+			// (A handler that was removed with SetConsensusHandler(nil) and is still being
+			// consulted shows up here with a record and verdict "accepted".)
+			tot.relayedNoRecord.staticNoHandler.Add(1)
+			who := "no handler was called with it"
+			if handled {
+				who = fmt.Sprintf("the removed handler %s was still called and answered %s", recs[0].Handler, recs[0].Verdict)
+			}
+			r.Violate(c20KeyNoHdl, fmt.Sprintf("C received %s, published and fully processed by B while B had no consensus handler installed (%s)", where, who), caseID, wit)
 		case handled && recs[0].Verdict == "accepted":
 			// fine
 		case handled:
@@ -1204,9 +1215,6 @@ func c20RunTopology(r *verifkit.Run, ctx context.Context, idx, perDyn, staticMul
 		default:
 			// no handler of B ever saw it
 			switch m.PhaseClass {
-			case "static-nohandler":
-				tot.relayedNoRecord.staticNoHandler.Add(1)
-				r.Violate(c20KeyNoHdl, fmt.Sprintf("C received %s, published and fully processed by B while B had no consensus handler installed", where), caseID, wit)
 			case "static-handler":
 				tot.relayedNoRecord.staticHandler.Add(1)
 				switch {
